@@ -297,3 +297,82 @@ def run(res, facts, tier):
         r4.ok('%s calls XPath::execute (%d sites)' % (cls, cnt))
     r4.note('%d call sites of non-public XPath members, all inside class XPath' % n)
     res.extra['executeMore_labels'] = len(all_labels)
+
+
+# ----------------------------------------------------------------------------------------------- R6: typed overloads of a helper are wrappers
+WRAPPER_OK_CALLS = {'boolean', 'number', 'string', 'createNodeSet', 'getXObjectFactory', 'get', 'createNumber', 'createBoolean', 'createString', 'createStringReference'}
+
+
+def r6_wrappers(res, facts):
+    r6 = res.rule('C11-R6', 'helper families of XPath (Union, locationPath, plus, minus, mult, div, mod, neg: one name, several result types): exactly one overload computes the value; '
+                  'every other overload only calls an overload of the same name and converts its result with the canonical XObject conversion — no second implementation of the '
+                  'operation per result type', floor=15)
+    fam = collections.defaultdict(list)
+    for k in facts.astidx:
+        fn = facts.F.get(k)
+        if not fn or fn.get('cls') != 'xalanc_1_12::XPath':
+            continue
+        a = facts.ast(k)
+        if a is None or not a['file'].endswith('XPath.cpp') or len(a['params']) < 3:
+            continue
+        ptys = [p['ty'] for p in a['params']]
+        if 'XalanNode' not in ptys[0] or 'OpCodeMapPositionType' not in ' '.join(ptys[:3]) and 'unsigned' not in ptys[1] and 'int' not in ptys[1]:
+            continue
+        fam[fn['name'].split('::')[-1]].append(a)
+    n_f = 0
+    for nm, lst in sorted(fam.items()):
+        if len(lst) < 2 or nm in ('execute', 'executeMore') or nm.startswith('function') or nm == 'getMatchScore':
+            continue
+        info = []
+        for a in lst:
+            same = [c for c in calls(a['body']) if (c.get('n') or '') == nm and c.get('k') == 'MCall']
+            info.append((a, same))
+        called = {c.get('usr') for a, same in info for c in same}
+        if not called:
+            continue        # overloads that do not build on each other: not a wrapper family
+        n_f += 1
+        for a, same in info:
+            tag = short(a['params'][3]['ty']).replace('const ', '').replace(' &', '') if len(a['params']) > 3 else 'object'
+            site = '%s(%s)' % (nm, tag)
+            if not same:
+                if a.get('usr') in called:
+                    r6.ok(site, 'computes the value; the other overloads build on it')
+                else:
+                    r6.violation(site, 'this overload computes the value on its own instead of building on the overload the others call: the operation is implemented a second time '
+                                 'for this result type and can disagree with the others', common.file_line(a))
+                continue
+            probs = []
+            for x in walk(a['body']):
+                if x.get('k') in ('While', 'For', 'Do', 'If', 'Switch', 'Cond'):
+                    probs.append('contains a %s statement' % x['k'].lower())
+            others = []
+            for c in calls(a['body']):
+                n = c.get('n') or callee(c).split('::')[-1]
+                if c.get('k') == 'Ctor' or c.get('k') == 'OpCall':
+                    continue
+                if n == nm or n in WRAPPER_OK_CALLS:
+                    continue
+                others.append(n)
+            if others:
+                probs.append('calls %s' % sorted(set(others)))
+            if len(same) != 1:
+                probs.append('%d calls to %s' % (len(same), nm))
+            convs = [c.get('n') for c in calls(a['body']) if c.get('n') in ('boolean', 'number', 'string', 'createNodeSet', 'createNumber', 'createBoolean', 'createString')]
+            if not convs:
+                probs.append('no canonical conversion of the result')
+            if probs:
+                r6.violation(site, 'this overload is not a wrapper around another %s overload (%s): the operation is implemented a second time for this result type and can disagree '
+                             'with the others' % (nm, '; '.join(probs)), common.file_line(a))
+            else:
+                r6.ok(site, 'wrapper: %s + XObject::%s' % (nm, convs[0]))
+    if n_f < 6:
+        raise AnalysisBroken('only %d wrapper families found in XPath.cpp (Union, locationPath and the arithmetic helpers expected)' % n_f)
+    return r6
+
+
+_run_c11_prev = run
+
+
+def run(res, facts, tier):
+    _run_c11_prev(res, facts, tier)
+    r6_wrappers(res, facts)
